@@ -84,9 +84,9 @@ static double chisq_pvalue(int n, double x2)
      *         upper incomplete gamma function.
      */
     } else if ((n & 1) == 0) {
-	double c = exp(-x);
 	double f = 1.0;
 	double s = 0.0;
+	int k = 0;		/* f and s are scaled by 2^-k */
 
 	n >>= 1;
 	for (int i = 0; i < n; ++i) {
@@ -94,8 +94,13 @@ static double chisq_pvalue(int n, double x2)
 		f *= x / (double)i;
 	    }
 	    s += f;
+	    if (s > 0x1p+500) {	/* keep the sum from overflowing */
+		f = ldexp(f, -500);
+		s = ldexp(s, -500);
+		k += 500;
+	    }
 	}
-	result = c * s;
+	result = s * exp((double)k * M_LN2 - x);
 
     /*
      * For n odd,
@@ -106,16 +111,21 @@ static double chisq_pvalue(int n, double x2)
      */
     } else {
 	double c1 = erfc(sqrt(x));
-	double c2 = exp(-x) / sqrt(M_PI * x);
 	double f = 1.0;
 	double s = 0.0;
+	int k = 0;		/* f and s are scaled by 2^-k */
 
 	n >>= 1;
 	for (int i = 1; i <= n; ++i) {
 	    f *= x / (i - 0.5);
 	    s += f;
+	    if (s > 0x1p+500) {	/* keep the sum from overflowing */
+		f = ldexp(f, -500);
+		s = ldexp(s, -500);
+		k += 500;
+	    }
 	}
-	result = c1 + c2 * s;
+	result = c1 + s * exp((double)k * M_LN2 - x) / sqrt(M_PI * x);
     }
 
     return result;
